@@ -388,7 +388,9 @@ def _unif_items(tier):
                 for (sa, la) in ds:
                     for c2, reps in dr.items():
                         sb, lb = reps[0]
-                        for pa, pb in (("f1", "f1"), ("f1", "f2"), ("ones", "ones")):
+                        # (half0 / half1: where a node with one child and that child draw one edge of the tree between them, the whole length sits on one
+                        # of the two and the other has none -- the tree's edge HAS a length, so the distances are defined)
+                        for pa, pb in (("f1", "f1"), ("f1", "f2"), ("ones", "ones"), ("half0", "f1"), ("half1", "half0"), ("missing1", "f1")):
                             items.append({"a": mkspec(sa, la, rooted, pa, nsd), "b": mkspec(sb, lb, rooted, pb, nsd)})
     return items
 
